@@ -34,19 +34,42 @@ fn class(from: f64, to: f64) -> &'static str {
     }
 }
 
+/// Histories: how the constraints under test came to hold the range. 0 = Constraints::new; 1 = from_degrees (whole-degree
+/// lattice only); 2.. = an earlier range on every joint, replaced by update_range.
+pub const HISTORIES: usize = 7;
+fn prior_range(history: usize) -> Option<(f64, f64)> {
+    match history {
+        2 => Some((-0.1, 0.1)),  // narrow ordinary
+        3 => Some((3.0, -3.0)),  // narrow, wrapping through pi
+        4 => Some((0.5, 0.5)),   // unconstrained
+        5 => Some((-3.0, 3.0)),  // wide
+        6 => Some((0.1, -0.1)),  // nearly everything, wrapping
+        _ => None,
+    }
+}
+
 /// Run the real sampler with joint `joint` limited to [from,to] and the scripted unit draw k/2^52 for it.
-pub fn eval(joint: usize, from: f64, to: f64, k: u64) -> Result<Option<f64>, (String, String)> {
+pub fn eval(joint: usize, from: f64, to: f64, k: u64, history: usize) -> Result<Option<f64>, (String, String)> {
     let mut f = [-1.0; 6];
     let mut t = [1.0; 6];
     f[joint] = from;
     t[joint] = to;
-    let c = Constraints::new(f, t, 0.0);
+    let c = match (history, prior_range(history)) {
+        (_, Some((pf, pt))) => {
+            let mut c = Constraints::new([pf; 6], [pt; 6], 0.0);
+            c.update_range(f, t);
+            c
+        }
+        (1, _) => Constraints::from_degrees(std::array::from_fn(|i| f[i].to_degrees()..=t[i].to_degrees()), 0.0),
+        _ => Constraints::new(f, t, 0.0),
+    };
+    let (from, to) = (c.from[joint], c.to[joint]);
     let half = raw_for_unit(1u64 << 51);
     let raw = raw_for_unit(k);
     verif_hooks::arm_local_script(Box::new(move |i| if i == joint { raw } else { half }));
     let res = catch_unwind(AssertUnwindSafe(|| c.random_angles()));
     let consumed = verif_hooks::disarm_local_script();
-    let cls = class(from, to);
+    let cls = format!("{}{}", class(from, to), match history { 0 => "", 1 => "/from_degrees", _ => "/after-update_range" });
     let q = match res {
         Ok(q) => q,
         Err(p) => {
@@ -105,8 +128,8 @@ fn draws(from: f64, to: f64) -> Vec<u64> {
     v
 }
 
-fn case_json(joint: usize, from: f64, to: f64, k: u64) -> Value {
-    json!({"joint": joint, "from": from, "to": to, "unit_numerator": k.to_string(), "unit_denominator": "2^52"})
+fn case_json(joint: usize, from: f64, to: f64, k: u64, history: usize) -> Value {
+    json!({"joint": joint, "from": from, "to": to, "unit_numerator": k.to_string(), "unit_denominator": "2^52", "history": history})
 }
 
 pub fn run(ctx: &Ctx) -> Report {
@@ -122,22 +145,28 @@ pub fn run(ctx: &Ctx) -> Report {
         let to = (((lo + ix[1] as i64) * step_deg) as f64).to_radians();
         let joint = (ix[0] + 2 * ix[1]) % 6;
         r.states += 1;
-        for k in draws(from, to) {
-            r.transitions += 1;
-            match eval(joint, from, to, k) {
-                Ok(None) => r.skipped_boundary += 1,
-                Ok(Some(_)) => r.sig(format!("{}:accepted", class(from, to))),
-                Err((key, d)) => r.fail(key, idx, case_json(joint, from, to, k), d),
+        for history in 0..HISTORIES {
+            // quick tier: every range through new, the other histories rotate over the lattice
+            if step_deg > 1 && history > 0 && (idx as usize + history) % 3 != 0 {
+                continue;
+            }
+            for k in draws(from, to) {
+                r.transitions += 1;
+                match eval(joint, from, to, k, history) {
+                    Ok(None) => r.skipped_boundary += 1,
+                    Ok(Some(_)) => r.sig(format!("{}:h{}:accepted", class(from, to), history)),
+                    Err((key, d)) => r.fail(key, idx, case_json(joint, from, to, k, history), d),
+                }
             }
         }
         if idx % 397 == 0 {
-            r.sample(|| case_json(joint, from, to, 1u64 << 51));
+            r.sample(|| case_json(joint, from, to, 1u64 << 51, 0));
         }
     });
     rep.traces_validated = rep.transitions;
     rep.rule = format!(
         "(from,to) on the {step_deg}-degree lattice of [-360,360]^2 (one joint at a time) x scripted unit draws {{0, 2^-52, i/64, 1-2^-52, \
-         segment switch point +-{{2^-52, 2^-30}}}} fed to the real sampler through the ScriptedRng hook; the sampler is piecewise linear in the \
+         segment switch point +-{{2^-52, 2^-30}}}} x histories {{new, from_degrees, update_range over a narrow / narrow wrapping / unconstrained / wide / nearly-full earlier range}} fed to the real sampler through the ScriptedRng hook; the sampler is piecewise linear in the \
          draw with one breakpoint, so both ends and both sides of the breakpoint decide each piece; oracle = arc membership (and the library's \
          own compliant()); results within 1e-9 of an arc end are skipped_boundary; signature = (range class, accepted)"
     );
@@ -148,7 +177,7 @@ pub fn run(ctx: &Ctx) -> Report {
 
 pub fn replay(case: &Value) -> Vec<String> {
     let k: u64 = case["unit_numerator"].as_str().unwrap().parse().unwrap();
-    match eval(case["joint"].as_u64().unwrap() as usize, as_num(&case["from"]), as_num(&case["to"]), k) {
+    match eval(case["joint"].as_u64().unwrap() as usize, as_num(&case["from"]), as_num(&case["to"]), k, case["history"].as_u64().unwrap_or(0) as usize) {
         Err((k, d)) => vec![format!("{k}: {d}")],
         _ => vec![],
     }
